@@ -251,6 +251,11 @@ func (tnc *TNC) runControlLoop() error {
 				if tnc.ptt != nil {
 					tnc.ptt.SetPTT(msg.Bool())
 				}
+			case cmdConnected:
+				// The remote's first data frame may follow immediately. Accept ARQ data from
+				// now on instead of waiting for Dial/Accept to notice the connect (they run
+				// in other goroutines), or that frame would be dropped as unconnected data.
+				tnc.connected = true
 			case cmdDisconnected:
 				tnc.state = Disconnected
 				tnc.eof()
@@ -325,10 +330,10 @@ func (tnc *TNC) runControlLoop() error {
 }
 
 func (tnc *TNC) eof() {
+	tnc.connected = false // Set to true again by the next CONNECTED
 	if tnc.data != nil {
 		close(tnc.dataIn)       // Signals EOF to pending reads
 		tnc.data.signalClosed() // Signals EOF to pending writes
-		tnc.connected = false   // connect() is responsible for setting it to true
 		tnc.dataIn = make(chan []byte, 4096)
 		tnc.data = nil
 	}
